@@ -33,8 +33,11 @@ PROP = dict(
           "the harness (port 0, read back) with close() + connect() in between; each session is either written by the client (the accepted peer reads "
           "exactly the reference bytes of every item, nothing extra before end of stream) or read by it (the peer sends the reference bytes); the order "
           "in force carries over from session to session and changes only at 'order' items. "
+          "Accepted sockets (part accept): an asl Socket binds 127.0.0.1:0, is given setEndian(BIG / LITTLE / NATIVE) or nothing, listens and accepts "
+          "a connection made by the harness; the accepted Socket is used as it comes (3 of 4 cases: its order is its own default, NATIVE, whatever the "
+          "listener was set to) or after its own setEndian, and writes typed values to / reads them from a peer that expects / sends the reference bytes. "
           "Non-trivial: the sequence contains a non-empty array of a multi-byte type, or an effective order switch, or NATIVE order, or a multi-byte "
-          "array written again, or a cut inside a value whose next piece holds more than the rest of that value, or a later session of a reconnecting Socket that carries multi-byte data in BIG order without an order item of its own. Distinct = distinct FNV-1a hash of "
+          "array written again, or a cut inside a value whose next piece holds more than the rest of that value, or a later session of a reconnecting Socket that carries multi-byte data in BIG order without an order item of its own, or an untouched accepted Socket next to a BIG listener carrying multi-byte data. Distinct = distinct FNV-1a hash of "
           "the serialised case."),
     assumptions=["the reference serializer (shifts of the unsigned bit pattern; NATIVE decided by inspecting the bytes of uint16_t 1) is right",
                  "bool values are true/false only (a bool object holding another bit pattern is not a value)",
